@@ -17,6 +17,12 @@ Rep(xs, K) == LET f[k \in 0..K] == IF k = 0 THEN <<>> ELSE f[k - 1] \o xs IN f[K
 ReplicationLemma == \A s \in 1..Len(C.a[1]) : \A K \in {2, 3} :
     LET c1 == WelchCert(Col(C.a, s), Col(C.b, s))  cK == WelchCert(Rep(Col(C.a, s), K), Rep(Col(C.b, s), K))
     IN cK[1] = c1[1] /\ (IsFin(c1[2]) => cK[2] = RDiv(c1[2], RInt(K)))
+\* (M) adding the same constant to every entry of both sets changes neither the difference of means nor the variances: the certificate is unchanged.
+\* Checked for c = 1, 7, -3; used by the harness to present a small case on a large common offset (float32 batches whose squares are not representable
+\* in their own type, accumulated in float64; column-major batches coming out of a preprocess).
+ShiftBy(xs, c) == [i \in 1..Len(xs) |-> xs[i] + c]
+ShiftLemma == \A s \in 1..Len(C.a[1]) : \A c \in {1, 7, -3} :
+    WelchCert(ShiftBy(Col(C.a, s), c), ShiftBy(Col(C.b, s), c)) = WelchCert(Col(C.a, s), Col(C.b, s))
 Emit == PrintT(<<"EMIT", ToJson([case |-> case, cert |-> [s \in 1..Len(C.a[1]) |-> WelchCert(Col(C.a, s), Col(C.b, s))],
                                   mean1 |-> [s \in 1..Len(C.a[1]) |-> Rat(SeqSum(Col(C.a, s)), Len(C.a))], var1 |-> [s \in 1..Len(C.a[1]) |-> PopVar(Col(C.a, s))]])>>)
 =============================================================================
